@@ -14,6 +14,8 @@ import (
 	"bufio"
 	"flag"
 	"fmt"
+	"math"
+	"math/big"
 	"math/rand"
 	"os"
 	"runtime/debug"
@@ -59,13 +61,59 @@ func Guard(f func() string) (res string) {
 	return f()
 }
 
+// Generators maps a Gen module name to a function producing the text of
+// lean/M3d/Gen/<name>.lean from the repository at the given root (tables are
+// dumped by executing the real code through the verif hooks; structural facts
+// are read off the source with go/ast).  A property's command registers its
+// generators in an init() function.
+var Generators = map[string]func(repoRoot string) (string, error){}
+
+// RatStr renders a finite float64 exactly as "num/den" (big.Rat), the form the
+// Lean side parses with parseRat and prints with showRat.
+func RatStr(x float64) string {
+	if math.IsNaN(x) || math.IsInf(x, 0) {
+		return "nan"
+	}
+	return new(big.Rat).SetFloat64(x).String()
+}
+
+// Hex renders a float64 as its 16-hex-digit IEEE bit pattern (floatOfHex / hexOfFloat in Lean).
+func Hex(x float64) string { return fmt.Sprintf("%016x", math.Float64bits(x)) }
+
+// Dyadic draws k/2^bits with |k| <= span*2^bits: arithmetic on such values is exact in float64
+// as long as the products stay below 2^53, which is what the "exact" comparison mode relies on.
+func (c *Ctx) Dyadic(span int, bits uint) float64 {
+	d := 1 << bits
+	return float64(c.Rng.Intn(2*span*d+1)-span*d) / float64(d)
+}
+
 // Main is the body of every cmd/cNN: parse flags, run f, append the #stat lines.
 func Main(propID string, f func(*Ctx)) {
 	prop := flag.String("prop", propID, "property id (informational)")
 	seed := flag.Int64("seed", 1, "PRNG seed")
 	n := flag.Int("n", 200, "case budget")
 	outPath := flag.String("out", "", "output file")
+	gen := flag.String("gen", "", "regenerate lean/M3d/Gen/<name>.lean instead of running cases")
+	repo := flag.String("repo", "/repo", "repository root (for go/ast fact extraction)")
 	flag.Parse()
+	if *gen != "" {
+		g, ok := Generators[*gen]
+		if !ok {
+			fmt.Fprintln(os.Stderr, "unknown generator", *gen)
+			os.Exit(2)
+		}
+		text, err := g(*repo)
+		if err != nil {
+			fmt.Fprintln(os.Stderr, "generator failed:", err)
+			os.Exit(1)
+		}
+		if *outPath == "" {
+			fmt.Print(text)
+		} else if err := os.WriteFile(*outPath, []byte(text), 0o644); err != nil {
+			panic(err)
+		}
+		return
+	}
 	w := os.Stdout
 	if *outPath != "" {
 		var err error
